@@ -269,7 +269,8 @@ def run_check(tier, seed):
     seed_doc = run_procs([(["version", "--source=none", "--tag-version=1.2.3", '--custom={"a":"MARK"}', "--output-format=zerv"], None)])[0][1].decode("utf-8", "replace")
     dj = []
     if '"MARK"' in seed_doc:
-        for depth in (300, 600, 5000, 20000, 200000):
+        # depths on both sides of every limit involved (serde_json 128, ron's writer default 128, zerv's reader limit 512 counted about twice per level)
+        for depth in (60, 100, 124, 126, 128, 130, 160, 200, 250, 254, 256, 300, 600, 5000, 20000, 200000):
             for opn, cls in (("[", "]"), ('{"k":', "}")):
                 doc = seed_doc.replace('"MARK"', opn * depth + "1" + cls * depth)
                 for argv in (["version", "--source=stdin"], ["flow", "--source=stdin"], ["version", "--source=stdin", "--output-format=zerv"]):
@@ -279,6 +280,14 @@ def run_check(tier, seed):
             st["cases"] += 1
             run.evaluations += 1
             bad = discipline(rc, out, err)
+            # a success prints a result: the version, or a Zerv document that zerv itself reads back and re-emits unchanged
+            if bad is None and rc == 0 and "--output-format=zerv" in argv:
+                again = run_procs([(["version", "--source=stdin", "--output-format=zerv"], out)], timeout=120)[0]
+                run.evaluations += 1
+                if not out.startswith(b"(") or again[0] != 0 or again[1] != out:
+                    bad = "exit status 0 but stdout is not a Zerv document that reads back and re-emits unchanged"
+            if bad is None and rc == 0 and "--output-format=zerv" not in argv and (not out.endswith(b"\n") or b"\n" in out[:-1] or not out[:1].isdigit()):
+                bad = "exit status 0 but stdout is not the one-line version"
             if bad:
                 run.add_violation("oracle", {"stream": "stdin_documents_nested_beyond_any_limit", "what": bad, "described": {"argv": argv, "stdin": f"an emitted document whose custom value is nested {depth} levels deep"},
                                              "rc": rc, "stderr": err.decode("utf-8", "replace")[:300]}, True)
